@@ -2,6 +2,7 @@
   Property C02 — evaluation binding: a false claim with an honest proof is never accepted.
 -/
 import PCV.Proofs.KZG10
+import PCV.Proofs.Roots
 import PCV.Props.Examples
 
 namespace PCV.C02
@@ -49,6 +50,30 @@ theorem kzg10_wrong_point_rejected (g γ β h : F) (n m : Nat) (p r : List F) (z
   have h0 := this.1 hc
   simp only [zero_mul, sub_zero, zero_add, mul_eq_zero] at h0
   rcases h0 with h0 | h0 | h0 <;> contradiction
+
+/-- **KZG10, wrong point: the exceptional trapdoors are few.** For a non-hiding opening of `p` at
+`z` whose quotient is not identically zero (i.e. `p` is not constant), there is a set `S` of at most
+`|p| − 1` field elements such that for *every* trapdoor `β ∉ S` the proof is rejected at every
+other point — the degenerate case "the witness vanishes" is confined to the roots of the quotient. -/
+theorem kzg10_wrong_point_exceptional_set (p : List F) (z : F)
+    (hnc : ∃ x, evalPoly (divLin p z).1 x ≠ 0) :
+    ∃ S : Finset F, S.card ≤ p.length - 1 ∧
+      ∀ (g γ β h : F) (n m : Nat) (π : KZG.Proof F) (dz : F), β ∉ S → g ≠ 0 → h ≠ 0 → dz ≠ 0 →
+        KZG.open (KZG.wfPowers g γ β n m) p z [] = .ok π →
+        KZG.check (KZG.wfVK g γ β h) (g * evalPoly p β + γ * evalPoly [] β) (z + dz)
+          (evalPoly p z) π = false := by
+  obtain ⟨S, hcard, hS⟩ := Roots.zeros_bounded (divLin p z).1 hnc
+  refine ⟨S, by rw [divLin_len] at hcard; exact hcard, ?_⟩
+  intro g γ β h n m π dz hβ hg hh hdz ho
+  have hr : (pnorm ([] : List F)).length ≤ m := by simp [pnorm]
+  apply kzg10_wrong_point_rejected g γ β h n m p [] z π hr ho dz hdz ?_ hh
+  obtain ⟨hw, _⟩ := KZG.open_spec g γ β n m p [] z π hr ho
+  rw [hw]
+  simp only [divLin, evalPoly_nil, mul_zero, add_zero]
+  intro h0
+  rcases mul_eq_zero.1 h0 with h1 | h1
+  · exact hg h1
+  · exact hβ (hS β h1)
 
 /-- **KZG10, wrong commitment.** Any other commitment `c + dc`, `dc ≠ 0`, is rejected. In
 particular a commitment to `q` with `q(β) ≠ p(β)`. -/
